@@ -147,3 +147,21 @@ def _range_replay(name):
 
 range_contains.replay = _range_replay('__contains__')
 range_ge.replay = _range_replay('__ge__')
+
+
+# ------------------------------------------------------------------------------------------------ search._subset
+from .c08_catalogue import TABLE as _TABLE17
+
+
+@contract(W, 'dawgie/db/shelve/search.py', '_subset', props=['C17'])
+class search_subset(ContractBase):
+    """a name constraint selects the table entries whose own name (parent and version stripped) EQUALS the name"""
+    params = {'from_table': _TABLE17, 'name': STR}
+    returns = _TABLE17
+    modifies = []
+    opaque_strings = True
+
+    def ensures(c):
+        k = c.sk('k', STR)
+        T = c['from_table']
+        return {'exactly-the-entries-with-that-name': c.result[k] == If(And(Not(_TABLE17.opt.is_none(T[k])), name_part(k) == c['name']), T[k], _TABLE17.opt.none())}
